@@ -68,8 +68,9 @@ class Trace:
                 continue
             elif k == "attack":
                 f = rest.split(" ")
-                self.attack = {"t": int(f[0]), "name": f[3], "pn": int(f[4])}
-                r = Rec("attack"); r.t = int(f[0])
+                self.attack = {"t": int(f[0]), "name": f[3], "pn": int(f[4]), "ep": f[1], "conn": f[2],
+                               "space": f[5] if len(f) > 5 else "app"}
+                r = Rec("attack"); r.t = int(f[0]); r.ep = f[1]
             else:
                 continue
             r.idx = idx
@@ -259,7 +260,7 @@ def o_c03(tr):
                 elif f["type"] == "MAX_STREAMS":
                     L.max_streams[f["bidi"]] = max(L.max_streams[f["bidi"]], f["max"])
         elif r.kind == "txp" and r.space == "app":
-            if tr.attack and r.ep == "c":
+            if tr.attack and r.ep == tr.attack.get("ep", "c"):
                 continue      # the attacker's own packets are not the implementation's choice
             L = lim[r.ep]
             H = highest[r.ep]
@@ -325,7 +326,7 @@ def o_c12(tr):
     for r in tr.recs:
         if r.kind != "txp":
             continue
-        if tr.attack and r.ep == "c":
+        if tr.attack and r.ep == tr.attack.get("ep", "c"):
             continue
         ep = r.ep
         types = [f["type"] for f in r.frames]
@@ -402,7 +403,7 @@ def o_c08(tr):
             if k in last_pn and r.pn <= last_pn[k]:
                 bad.append(("e2e:c08:pn-not-increasing", f"endpoint {r.ep} {r.space}: packet number {r.pn} after {last_pn[k]}"))
             last_pn[k] = r.pn
-            if tr.attack and r.ep == "c":
+            if tr.attack and r.ep == tr.attack.get("ep", "c"):
                 continue
             got = processed.get(k, set())
             for f in r.frames:
